@@ -1058,6 +1058,14 @@ def _decorate_with_invariants(func: CallableT, is_init: bool) -> CallableT:
                 _IN_PROGRESS.set(in_progress)
 
             id_instance = id(instance)
+
+            # If the instance is already marked, this constructor has been called from the constructor of
+            # a derived class (``super().__init__(...)``) or from a method of the instance. The invariants
+            # must neither be checked here, as the construction might not have been finished yet, nor must
+            # the instance be unmarked, as the mark belongs to the outer call.
+            if id_instance in in_progress:
+                return func(*args, **kwargs)
+
             in_progress.add(id_instance)
 
             # ExitStack is not used here due to performance.
